@@ -32,7 +32,8 @@ MANIFEST = {
             'every reachable store; read() onto a NON-fresh object: exact post-read store (extension library kept when '
             'the file has no [EXTENSIONS] section), invariant preserved, a stale extension-library keymap entry cannot '
             'make add_block resolve to a wrong id, refuted (computed witness) for a reader that keeps the old trigger '
-            'library. '
+            'library; storing by the id register_* returned equals storing by value, an id from another Sequence is '
+            'refuted. '
             'Random label programs (all 21 labels, SET/INC, negative/zero/boolean values, several labels and '
             'triggers/outputs per block, shared/subset/reordered extension sets, mixed with RF/gradient/ADC events) '
             'run on the implementation and on the extracted model: store after every add_block, chains, get_block '
@@ -329,7 +330,137 @@ def run_reuse(ctx, case, pending):
     ctx.count('blocks.added_after_reuse_read', len(case['post']))
 
 
+def gen_twoseq(rng, tier):
+    """two Sequence objects in one process.  The first registers some label / trigger events ONCE
+    (`ev.id = seq.register_label_event(ev)`) and adds them to many blocks by id; the caller may also change an event it
+    owns after using it.  The second is built the plain way from constructor calls with the SAME arguments."""
+    labs = rng.sample(labels(), rng.randint(2, 5))
+    reg_ops = []
+    for lab in rng.sample(labs, rng.randint(1, len(labs))):
+        reg_ops.append([rng.choice(['SET', 'INC']), lab, gen_value(rng, lab)])
+    reg_trigs = [gen_trig(rng) for _ in range(rng.choice([0, 1, 1, 2]))]
+    seq1 = []
+    for _ in range(rng.randint(2, 5)):
+        own = []
+        free = [l for l in labels() if l not in [o[1] for o in reg_ops]]
+        for lab in rng.sample(free, rng.choice([0, 1, 2])):
+            own.append([rng.choice(['SET', 'INC']), lab, gen_value(rng, lab)])
+        seq1.append({'ops': own, 'trigs': [], 'extra': gen_extra(rng), 'order': rng.random(),
+                     'reg_ops': sorted(rng.sample(range(len(reg_ops)), rng.randint(0, len(reg_ops)))),
+                     'reg_trigs': sorted(rng.sample(range(len(reg_trigs)), rng.randint(0, len(reg_trigs))))})
+    if not any(b['reg_ops'] for b in seq1):
+        seq1[-1]['reg_ops'] = [0]
+    mutate = rng.choice(['none', 'none', 'value', 'label', 'timing'])
+    # second sequence: a few unrelated labels / triggers first (so that library ids differ from the first
+    # sequence), then blocks built from the same constructor arguments as the registered events
+    blocks = []
+    others = [l for l in labels() if l not in [o[1] for o in reg_ops]]
+    for _ in range(rng.randint(1, 3)):
+        ops = [[rng.choice(['SET', 'INC']), lab, gen_value(rng, lab)] for lab in rng.sample(others, rng.randint(1, 3))]
+        blocks.append({'ops': ops, 'trigs': [gen_trig(rng) for _ in range(rng.choice([0, 1]))], 'extra': gen_extra(rng),
+                       'order': rng.random()})
+    for _ in range(rng.randint(2, 4)):
+        ops = [copy.deepcopy(reg_ops[i]) for i in rng.sample(range(len(reg_ops)), rng.randint(1, len(reg_ops)))]
+        trigs = [copy.deepcopy(t) for t in reg_trigs if rng.random() < 0.7]
+        for lab in rng.sample(others, rng.choice([0, 1])):
+            ops.append([rng.choice(['SET', 'INC']), lab, gen_value(rng, lab)])
+        blocks.append({'ops': ops, 'trigs': trigs, 'extra': gen_extra(rng), 'order': rng.random()})
+    init = [[l, rng.randint(-50, 50)] for l in dict.fromkeys(rng.sample(labs, rng.choice([0, 1])))]
+    return {'stream': 'twoseq', 'reg_ops': reg_ops, 'reg_trigs': reg_trigs, 'seq1': seq1, 'mutate': mutate,
+            'blocks': blocks, 'init': init, 'spec_expect': True}
+
+
+def constructor_of(kind):
+    import pypulseq as pp
+    return {'trigger': pp.make_trigger, 'output': pp.make_digital_output_pulse}[kind]
+
+
+def fresh_event_problem(ev, want, what):
+    """a newly constructed event must carry exactly what its arguments say and nothing else (no id of an earlier use)"""
+    if hasattr(ev, 'id'):
+        return '%s returned an event that already carries id=%r' % (what, ev.id)
+    got = {k: (float(v) if isinstance(v, float) else v) for k, v in vars(ev).items()}
+    for k, v in want.items():
+        g = got.get(k)
+        if isinstance(v, float):
+            if g is None or not close(float(g), v):
+                return '%s: %s = %r, arguments say %r' % (what, k, g, v)
+        elif g != v:
+            return '%s: %s = %r, arguments say %r' % (what, k, g, v)
+    return None
+
+
+def run_twoseq(ctx, case, pending):
+    import importlib
+    import pypulseq as pp
+    blk = importlib.import_module('pypulseq.Sequence.block')
+    seq1 = pp.Sequence(pp.Opts())
+    # events the first sequence registers once and re-uses by id
+    reg_l, reg_t = [], []
+    for o in case['reg_ops']:
+        ev = pp.make_label(o[1], o[0], o[2])
+        ev.id = seq1.register_label_event(ev)
+        reg_l.append(ev)
+    for t in case['reg_trigs']:
+        ev = constructor_of(t[0])(t[1], delay=t[2] * 1e-6, duration=t[3] * 1e-6)
+        ev.id = blk.register_control_event(seq1, ev)
+        reg_t.append(ev)
+    expect1 = []
+    for spec in case['seq1']:
+        evs = build_block(dict(spec, trigs=[]))
+        evs += [reg_l[i] for i in spec['reg_ops']] + [reg_t[i] for i in spec['reg_trigs']]
+        try:
+            seq1.add_block(*evs)
+        except Exception as e:  # noqa: BLE001
+            ctx.fail('C19/twoseq-add_block-raises', case, {'sequence': 1, 'exception': repr(e)[:200]})
+            return
+        full = dict(spec, ops=spec['ops'] + [case['reg_ops'][i] for i in spec['reg_ops']],
+                    trigs=[case['reg_trigs'][i] for i in spec['reg_trigs']])
+        expect1.append(spec_multisets(full))
+    ops1 = [b['ops'] + [case['reg_ops'][i] for i in b['reg_ops']] for b in case['seq1']]
+    c1 = dict(case, _oneop=all(len({o[1] for o in ops}) == len(ops) for ops in ops1))
+    check_sequence(ctx, c1, seq1, expect1, 'first')
+    # the caller changes events it owns after they have been stored (the store keeps its own copy)
+    if case['mutate'] == 'value':
+        for ev in reg_l:
+            ev.value = int(ev.value) + 7
+    elif case['mutate'] == 'label':
+        for ev in reg_l:
+            ev.label = labels()[(labels().index(ev.label) + 3) % len(labels())]
+    elif case['mutate'] == 'timing':
+        for ev in reg_t:
+            ev.delay, ev.duration = ev.duration + 1e-4, ev.delay + 3e-4
+    if case['mutate'] != 'none':
+        check_sequence(ctx, c1, seq1, expect1, 'first-after-caller-change')
+    # constructors called again with the same arguments: fresh, independent events
+    for o in case['reg_ops']:
+        a, b = pp.make_label(o[1], o[0], o[2]), pp.make_label(o[1], o[0], o[2])
+        pr = fresh_event_problem(b, {'type': 'labelset' if o[0] == 'SET' else 'labelinc', 'label': o[1], 'value': int(o[2])},
+                                 'make_label(%r, %r, %r)' % (o[1], o[0], o[2]))
+        if pr is None and a is b:
+            pr = 'make_label(%r, %r, %r) returned the same object twice' % (o[1], o[0], o[2])
+        if pr:
+            ctx.fail('C19/constructor-leaks-state', case, {'what': pr})
+            break
+    for t in case['reg_trigs']:
+        f = constructor_of(t[0])
+        a, b = f(t[1], delay=t[2] * 1e-6, duration=t[3] * 1e-6), f(t[1], delay=t[2] * 1e-6, duration=t[3] * 1e-6)
+        dur = t[3] * 1e-6
+        pr = fresh_event_problem(b, {'type': t[0], 'channel': t[1], 'delay': t[2] * 1e-6, 'duration': 1e-5 if dur <= 1e-5 else dur},
+                                 '%s(%r, delay=%r us, duration=%r us)' % (f.__name__, t[1], t[2], t[3]))
+        if pr is None and a is b:
+            pr = '%s returned the same object twice' % f.__name__
+        if pr:
+            ctx.fail('C19/constructor-leaks-state', case, {'what': pr})
+            break
+    ctx.count('twoseq.caller_change.' + case['mutate'])
+    # the second sequence, the plain way, through the whole pipeline (expectation from the arguments)
+    run_program(ctx, case, pending)
+
+
 def one_op(case):
+    if '_oneop' in case:
+        return case['_oneop']
     return all(len({o[1] for o in b['ops']}) == len(b['ops']) for b in case['blocks'] + case.get('post', []))
 
 
@@ -365,6 +496,19 @@ def added_multisets(evs):
                    if getattr(e, 'type', '') in ('output', 'trigger'))
     has_adc = any(getattr(e, 'type', '') == 'adc' for e in evs)
     return labs, trigs, has_adc
+
+
+def spec_multisets(spec):
+    """what a block specification asks for, computed from the ARGUMENTS handed to the constructors (not from the
+    event objects they return): labels (type, name, int(value)), triggers (type, channel, delay, duration raised to
+    one gradient raster as make_trigger / make_digital_output_pulse document), ADC presence"""
+    raster = 1e-5
+    labs = sorted(('labelset' if o[0] == 'SET' else 'labelinc', o[1], int(o[2])) for o in spec['ops'])
+    trigs = []
+    for t in spec['trigs']:
+        dur = t[3] * 1e-6
+        trigs.append((t[0], t[1], t[2] * 1e-6, raster if dur <= raster else dur))
+    return labs, sorted(trigs), any(e[0] == 'adc' for e in spec['extra'])
 
 
 # ---- the oracle: label semantics written from the property text ---------------------------------------
@@ -587,7 +731,13 @@ def compare_store(ctx, case, single, init, out, stream):
             ctx.mismatch(stream, case, {'what': 'extension chain of block %d' % i, 'impl': [eid, chain, lst],
                                         'model': [mb['eid'], mb['walk'], mb['list']]})
             return
-        b = seq.get_block(i)
+        try:
+            b = seq.get_block(i)
+        except Exception as e:  # noqa: BLE001
+            if mb['dec'] is not None:
+                ctx.mismatch(stream, case, {'what': 'get_block(%d) raises %r, the model decodes the chain' % (i, e)})
+                return
+            continue     # both fail (a dangling reference): the oracle has reported it
         il = [(l.type == 'labelset', labels().index(l.label) + 1, int(l.value)) for l in (getattr(b, 'label', None) or {}).values()]
         it = []
         for tr in getattr(b, 'trigger', {}).values():
@@ -599,7 +749,12 @@ def compare_store(ctx, case, single, init, out, stream):
                                         'impl': [il, it], 'model': mb['dec']})
             return
     for mode, me in zip(MODES, mevals):
-        r = seq.evaluate_labels(init=dict((l, v) for l, v in init) if init else None, evolution=mode)
+        try:
+            r = seq.evaluate_labels(init=dict((l, v) for l, v in init) if init else None, evolution=mode)
+        except Exception as e:  # noqa: BLE001
+            if me is not None:
+                ctx.mismatch(stream, case, {'what': 'evaluate_labels raises %r, the model evaluates' % (e,), 'mode': mode})
+            return
         got, arr, order = canon_result(r)
         if me is None:
             ctx.mismatch(stream, case, {'what': 'model eval_store failed', 'mode': mode})
@@ -623,7 +778,7 @@ def run_program(ctx, case, pending):
         if rec['outcome'][0] != 'ok':
             ctx.fail('C19/add_block-raises', case, {'block': len(expect) + 1, 'error': rec['outcome'][1]})
             return
-        expect.append(added_multisets(evs))
+        expect.append(spec_multisets(spec) if case.get('spec_expect') else added_multisets(evs))
     for i in list(s.on.block_events.keys()):
         s.get(i)
     check_sequence(ctx, case, s.on, expect, 'stored')
@@ -673,7 +828,7 @@ def run_program(ctx, case, pending):
                     ctx.fail('C19/extended-add_block-raises', case, {'block': len(expect2) + 1, 'error': rec['outcome'][1]})
                     post_ok = False
                     break
-                expect2.append(added_multisets(evs))
+                expect2.append(spec_multisets(spec) if case.get('spec_expect') else added_multisets(evs))
             if post_ok:
                 for i in list(s2.block_events.keys()):
                     r.get(i)
@@ -922,6 +1077,7 @@ def run(ctx):
     #   read()s other files, and is filled again)
     rngc = ctx.rng('continue')
     rngr = ctx.rng('reuse')
+    rngt = ctx.rng('twoseq')
     rng = ctx.rng('programs')
     rngm = ctx.rng('multi')
     n_cont = n_reuse = 0
@@ -942,6 +1098,8 @@ def run(ctx):
             if n_cont == 4:
                 ctx.sample({'stream': 'continue', 'first_use': case['first_use'], 'pre': [[b['ops'], b['trigs']] for b in case['blocks'][:3]],
                             'post': [[b['ops'], b['trigs']] for b in case['post'][:3]]})
+        if n % 8 in (2, 7):
+            run_twoseq(ctx, gen_twoseq(rngt, ctx.tier), pending)
         if n % 8 in (1, 5):
             case = gen_reuse(rngr, ctx.tier)
             run_reuse(ctx, case, pending)
@@ -965,6 +1123,8 @@ def replay(ctx, case):
     pending = []
     if 'files' in case:
         run_reuse(ctx, case, pending)
+    elif 'seq1' in case:
+        run_twoseq(ctx, case, pending)
     else:
         run_program(ctx, case, pending)
     flush(ctx, pending)
